@@ -184,6 +184,19 @@ def check_property(p, tier, r=None, want_cex=False, route='parser'):
     text = absyn.property_text(p, time=time_text(p[2][5]))
     if route == 'parser':
         st, obj = impl.try_parse('prop', text)
+    elif route == 'derived':
+        # a property made with but() from the parsed one after its canonical form was computed
+        from hplmc.checks import c11
+
+        st, obj = impl.try_parse('prop', text)
+        if st == 'ok':
+            try:
+                obj = c11.derive_from_canonicalised(obj)
+            except Exception as e:  # noqa: BLE001
+                st, obj = impl.outcome_class(e), e
+            if obj is None:
+                return problems
+        text = text + ' [first alternative of every disjunction replaced with but()]'
     else:
         try:
             st, obj = 'ok', absyn.build(left_nested(p))
@@ -300,6 +313,8 @@ def run(unit):
         if widest >= 3:
             # the parser only builds right-nested disjunctions; the API also allows left-nested ones
             probs += check_property(p, tier, r, route='api-left')
+        if widest == 2 and p[2][5] == INF:
+            probs += check_property(p, tier, r, route='derived')
         for kind_, detail in probs:
             r.violation(f'{kind_} [{p[1][1]}, {p[2][1]}]', {'property': p, 'text': absyn.property_text(p, time=time_text(p[2][5])), 'api_left': 'left-nested' in detail}, detail, size=len(absyn.property_text(p, time=time_text(p[2][5]))))
         if len(r.samples) < 1:
